@@ -748,7 +748,7 @@ func concurrentSequence(c *Ctx, im *Impl, cf *CaseFile) {
 		rounds = 15000
 	}
 	r := NewRng(c.Seed ^ 0x5e9c06)
-	conns := []string{"k0", "k1", "k2", "k3", "tail"}
+	conns := []string{"k0", "k1", "k2", "k3", "k4", "tail"}
 	w := newWorld(conns)
 	defer w.stop()
 	bad := 0
@@ -767,7 +767,7 @@ func concurrentSequence(c *Ctx, im *Impl, cf *CaseFile) {
 			w.n.VerifHandleRoutingUpdate(u, "k3")
 			w.observe()
 		}
-		nt := 2 + r.Intn(3)
+		nt := 2 + r.Intn(4)
 		var batch []netceptor.VerifRoutingUpdate
 		var recvs []string
 		e, sq := uint64(500), uint64(1)
@@ -778,7 +778,7 @@ func concurrentSequence(c *Ctx, im *Impl, cf *CaseFile) {
 			}
 			row := map[string]float64{"x": float64(1 + t)}
 			if r.Chance(50) {
-				row[conns[r.Intn(4)]] = float64(1 + r.Intn(3))
+				row[conns[r.Intn(5)]] = float64(1 + r.Intn(3))
 			}
 			batch = append(batch, netceptor.VerifRoutingUpdate{NodeID: origin, UpdateID: fmt.Sprintf("%s-%d", origin, t), UpdateEpoch: e,
 				UpdateSequence: sq, Connections: row, ForwardingNode: conns[t]})
